@@ -71,6 +71,12 @@ func runC06(s *kernel.Sim) {
 	if tp.Chance(1, 4) {
 		cancelAt = tp.Range(3, 40)
 	}
+	// a third of the runs with schedulable engine goroutines shut down at a placed
+	// instant instead: the first step after placeAfter at which a request waits
+	shutdownPlaced, placeAfter := false, 0
+	if bgYield && tp.Chance(1, 3) {
+		shutdownPlaced, placeAfter, cancelAt = true, tp.Range(2, 20), -1
+	}
 	wArr, wRes, wClk := 1+tp.Choose(4), tp.Choose(4), 1+tp.Choose(4)
 	siteOn, density := lockSites(tp)
 	TTL := time.Duration(ttlS) * time.Second
@@ -114,10 +120,14 @@ func runC06(s *kernel.Sim) {
 	// that e.g. a TTL can elapse in the middle of one quota check of the loop
 	settling := false
 	advancing := false // inside a multi-tick clock jump: engine goroutines run freely
-	s.Knobs["background_goroutines_schedulable"] = bgYield
+	forceBG := false   // engine goroutines stop at every lock site (shutdown placement)
+	s.Knobs["background_goroutines_schedulable"], s.Knobs["shutdown_placed_on_ttl_claim"] = bgYield, shutdownPlaced
 	s.YieldOn = func(point string, a []string, harness bool) bool {
 		if settling || !isLockPoint(point) || (advancing && !harness) {
 			return false
+		}
+		if forceBG && !harness {
+			return true
 		}
 		return (harness || bgYield) && siteOn(a[0])
 	}
@@ -127,6 +137,7 @@ func runC06(s *kernel.Sim) {
 	cancelled := false
 	var cancelT time.Duration
 	drainSeq := uint64(0)
+	nExpiredEv := 0
 	s.OnEvent = func(kind string, a []string) {
 		if kind == "queue.drain" {
 			drainSeq = s.Seq()
@@ -205,6 +216,7 @@ func runC06(s *kernel.Sim) {
 				s.Violate("R1", "double-verdict", "%s got a second verdict (expired) after granted=%v expired=%v", r.id, r.granted, r.expired)
 			}
 			r.expired, r.expSeq = true, s.Seq()
+			nExpiredEv++
 		}
 	}
 	prios := []string{"p1", "p2", "p3", ""}
@@ -283,8 +295,87 @@ func runC06(s *kernel.Sim) {
 		maxSteps = 160
 	}
 	for step := 0; step < maxSteps && !s.Failed(); step++ {
-		if step == cancelAt && !cancelled {
+		placeNow := false
+		if shutdownPlaced && !cancelled && step >= placeAfter {
+			for _, r := range waiting() {
+				placeNow = placeNow || r.pushed
+			}
+		}
+		if (step == cancelAt || placeNow) && !cancelled {
+			// shutdown placed on purpose where the TTL watcher has claimed an expired
+			// request and has not yet released its waiter: the loop's drain then meets a
+			// request that is in somebody else's hands
+			placed := false
+			if placeNow {
+				forceBG = true
+				var e time.Duration
+				for _, r := range waiting() {
+					if r.pushed && (e == 0 || r.enqT+TTL < e) {
+						e = r.enqT + TTL
+					}
+				}
+				if e > 0 {
+					placed = true
+					now := s.Now()
+					if target := e + 2*time.Millisecond; target > now {
+						for _, t := range s.ParkedTasks() {
+							if decides(t) {
+								bgStalls = append(bgStalls, span{now, target})
+								s.FaultFired("engine_goroutine_stalled_at_lock_site")
+								break
+							}
+						}
+						s.SleepUntil(target)
+						for _, t := range s.ParkedTasks() {
+							if decides(t) && t.ParkedAt < s.Now() {
+								bgStalls = append(bgStalls, span{t.ParkedAt, s.Now()})
+							}
+						}
+					}
+					n0 := nExpiredEv
+					for i := 0; i < 40 && nExpiredEv == n0; i++ {
+						var w *kernel.Task
+						for _, t := range s.ParkedTasks() {
+							if !t.Harness && strings.HasSuffix(t.Origin, ".manageTTLs") {
+								w = t
+							}
+						}
+						if w == nil {
+							break
+						}
+						s.Resume(w)
+					}
+					if nExpiredEv > n0 {
+						for _, t := range s.ParkedTasks() {
+							if !t.Harness && strings.HasSuffix(t.Origin, ".manageTTLs") {
+								s.Probe("shutdown_while_ttl_watcher_holds_a_claim")
+							}
+						}
+					}
+				}
+			}
 			cancel()
+			if placed {
+				cancelled, cancelT = true, s.Now()
+				s.FaultFired("context_cancel")
+				s.Event("cancel")
+				s.Sleep(time.Microsecond) // the loop sees the cancelled context and runs to its first lock site
+				for i := 0; i < 60; i++ {
+					var loop *kernel.Task
+					for _, t := range s.ParkedTasks() {
+						if !t.Harness && strings.HasSuffix(t.Origin, ".process") {
+							loop = t
+						}
+					}
+					if loop == nil {
+						break
+					}
+					s.Resume(loop)
+				}
+				forceBG = false
+				continue
+			}
+			forceBG = false
 			cancelled, cancelT = true, s.Now()
 			s.FaultFired("context_cancel")
 			s.Event("cancel")
